@@ -28,8 +28,28 @@ static void interval_entry(const char * tag)
   for (size_t d = 0; d < D; ++d) {
     vf_assume(std::ceil(up[d] / res) - std::floor(lo[d] / res) + 1 <= maxcells);
   }
-  M m(Interval<S, D>(lo, up), res);
+  // form 1: symmetric maximal-range constructor (extent [-range, range] on every axis, range = up[0])
+  const bool symmetric = vf_param("form") == 1;
+  if (symmetric) {
+    for (size_t d = 0; d < D; ++d) {vf_assume((up[d] == up[0]) & (lo[d] == -up[0]));}
+  }
+  M m = symmetric ? M(up[0], res) : M(Interval<S, D>(lo, up), res);
   auto n = m.getNumberOfCellsAlongAxes();
+  // cell centres: map back to their own indexes, are spaced by the resolution, first and last cells cover the bounds
+  for (size_t d = 0; d < D; ++d) {
+    const std::vector<S> & cc = m.getCellCentersPositionAlong(d);
+    vf_check(cc.size() == n[d], "one-centre-per-cell");
+    const S sl = 8 * std::numeric_limits<S>::epsilon() * ((lo[d] < 0 ? -lo[d] : lo[d]) + (up[d] < 0 ? -up[d] : up[d]) + res);
+    for (size_t k = 0; k < cc.size(); ++k) {
+      typename M::PointType q = p;
+      q[d] = cc[k];
+      vf_check(m.computeCellIndexes(q)[d] == k, "cell-centre-maps-back-to-its-own-index");
+      if (k + 1 < cc.size()) {
+        vf_check((cc[k + 1] - cc[k] <= res + sl) & (cc[k + 1] - cc[k] >= res - sl), "centres-are-spaced-by-the-resolution");
+      }
+    }
+    vf_check((cc.front() - res / 2 <= lo[d] + sl) & (cc.back() + res / 2 >= up[d] - sl), "first-and-last-cells-cover-the-extent-bounds");
+  }
   auto idx = m.computeCellIndexes(p);
   for (size_t d = 0; d < D; ++d) {
     vf_check(idx[d] < n[d], "index-in-bounds");
